@@ -45,7 +45,7 @@ class C18(Spec):
     shard = 1500
     rule = ("B: every (type, subtype, suffix|none) built through the API, with every quality value 0..100 on a rotating subset "
             "and 0-3 parameters (keys incl. ones starting with q/Q, values with '=', ',' and '/'), printed and parsed back; "
-            "M: the same texts in random letter case, vendor/extension subtypes and suffixes, blanks around ';', and mutated / "
+            "S: texts parsed, then setQuality / setParam through the API, then what the value writes parsed again (quality and parameters as set, type / subtype / suffix as parsed); M: the same texts in random letter case, vendor/extension subtypes and suffixes, blanks around ';', and mutated / "
             "truncated / garbage texts of bounded length, each parsed from an exactly sized heap copy that is NOT "
             "NUL-terminated under ASan+UBSan (quality values at the very end of the view, out-of-range, signed, many "
             "digits). non-trivial = text with a suffix, quality or parameter; distinct by case line")
@@ -107,6 +107,28 @@ class C18(Spec):
                 cases.append("M " + pv.hexs(bytes(b)))
             else:
                 cases.append("M " + pv.hexs(txt.encode()))
+        # a PARSED value whose quality / parameters are then set through the API: what it writes must say so (before the fix of the
+        # fifth round it went on writing the text it had been parsed from)
+        bases = ["text/plain", "text/html; charset=latin1", "application/json;q=0.5", "application/vnd.acme.thing+json; v=2",
+                 "image/x-custom", "Text/HTML; Charset=UTF-8", "application/xhtml+xml; q=0.9; a=b", "*/*", "multipart/form-data; boundary=xyz"]
+        for b in bases:
+            cases.append("S %s 50" % pv.hexs(b.encode()))
+            cases.append("S %s - %s=%s" % (pv.hexs(b.encode()), pv.hexs(b"charset"), pv.hexs(b"utf-8")))
+            cases.append("S %s 7 %s=%s %s=%s" % (pv.hexs(b.encode()), pv.hexs(b"a"), pv.hexs(b"1"), pv.hexs(b"level"), pv.hexs(b"2")))
+            cases.append("S %s 100" % pv.hexs(b.encode()))
+        for _ in range(60 if tier == "quick" else 1500):
+            t = rng.choice(TYPES); sb = rng.choice(SUBS + ["vnd.acme.thing", "x-custom"])
+            txt = t + "/" + sb + ("+" + rng.choice(SUFS) if rng.random() < 0.3 and "+" not in sb else "")
+            if rng.random() < 0.4:
+                txt += rng.choice(["; q=0.3", ";q=1", "; q=0.07"])
+            if rng.random() < 0.4:
+                txt += rng.choice(["; charset=utf-8", ";a=b", "; boundary=zz"])
+            ps = ["%s=%s" % (pv.hexs(rng.choice(["charset", "a", "level", "x-y"]).encode()), pv.hexs("".join(rng.choice("abcXYZ019-_./") for _ in range(rng.randint(1, 6))).encode()))
+                  for _ in range(rng.choice([0, 1, 1, 2]))]
+            q = rng.choice(["-", str(rng.randrange(101))])
+            if q == "-" and not ps:
+                q = "42"
+            cases.append("S %s %s %s" % (pv.hexs(txt.encode()), q, " ".join(ps)))
         for junk in ["", "/", "text", "text/", "/html", "text//html", ";", "text/html;", "text/html; ", "text/html;q", "text/html;q=", "text/html; q= ",
                      "text/html;=", "text/html;a", "text/html;a=", "text/html+", "text/html+;", "*/*", "*", "text/html;q=0.5;q=0.7", "text/html; charset"]:
             cases.append("M " + pv.hexs(junk.encode()))
@@ -114,10 +136,10 @@ class C18(Spec):
 
     def canon_model(self, line):
         # the writer emits parameters in hash-map order: the text of a built type is not compared
-        return " ".join(line.split()[:-1]) if line.startswith("B ok") else line
+        return " ".join(line.split()[:-1]) if line.startswith(("B ok", "S ok")) else line
 
     def canon_impl(self, line):
-        return " ".join(line.split()[:-1]) if line.startswith("B ok") else line
+        return " ".join(line.split()[:-1]) if line.startswith(("B ok", "S ok")) else line
 
     def oracle(self, case, impl):
         if impl.startswith(("CRASH", "HANG")):
@@ -126,6 +148,20 @@ class C18(Spec):
         o = impl.split()
         if o[1] == "err-other":
             return "rejected with something other than 415: %s" % case
+        if t[0] == "S":
+            if o[1] != "ok":
+                return "a parsed media type whose quality / parameters were then set does not write a text that parses: %s -> %s" % (pv.unhex(t[1]), impl)
+            if t[2] != "-" and o[5] != t[2]:
+                return ("setQuality(%s) on the parsed media type %r is not in what it writes: parsed back quality %s (%s)"
+                        % (t[2], pv.unhex(t[1]), o[5], impl))
+            got = {} if o[6] == "p=-" else dict(x.split("=") for x in o[6][2:].split(","))
+            for kv in t[3:]:
+                k, v = kv.split("=")
+                last = [x.split("=")[1] for x in t[3:] if x.split("=")[0] == k][-1]
+                if got.get(k) != last:
+                    return ("setParam(%r) on the parsed media type %r is not in what it writes: %s"
+                            % (pv.unhex(k), pv.unhex(t[1]), impl))
+            return None
         if t[0] == "B":
             if o[1] != "ok":
                 return "a media type built through the API does not parse back: %s -> %s" % (case, impl)
@@ -152,7 +188,7 @@ class C18(Spec):
         return None
 
     def nontrivial(self, case, impl):
-        return (case[0] == "B" and (case.split()[3] != "-" or case.split()[4] != "-" or len(case.split()) > 5)) or (b";" in pv.unhex(case.split()[1]) if case[0] == "M" else False)
+        return case[0] == "S" or (case[0] == "B" and (case.split()[3] != "-" or case.split()[4] != "-" or len(case.split()) > 5)) or (b";" in pv.unhex(case.split()[1]) if case[0] == "M" else False)
 
     def kind(self, case, impl):
         o = impl.split()
